@@ -406,6 +406,23 @@ pub fn c12_squeeze_i16_equals_i32() {
     squeeze_narrow_vs_wide::<5>(true);
 }
 
+// @prop C12
+// @tier thorough
+// @unit as c12_squeeze_i16_equals_i32
+// @sym every row / column of 6 i16 values (even length: no lone last average) and of 3 values
+// @bound lengths 6 and 3; horizontal and vertical
+// @assume as c12_squeeze_i16_equals_i32
+// @oblig narrow (i16) and wide (i32) scalar inverse squeeze produce identical samples
+// @outside the x86 SIMD drivers
+#[kani::proof]
+#[kani::unwind(8)]
+pub fn c12_squeeze_i16_equals_i32_len6_len3() {
+    squeeze_narrow_vs_wide::<6>(false);
+    squeeze_narrow_vs_wide::<6>(true);
+    squeeze_narrow_vs_wide::<3>(false);
+    squeeze_narrow_vs_wide::<3>(true);
+}
+
 fn predictor_scan<const PW: usize, const PH: usize>(check_preds: bool, check_props: bool, fast_at: Option<(usize, usize)>) {
     let mut img = [[0i64; PW]; PH];
     let mut st = PredictorState::<i32>::new();
